@@ -383,7 +383,17 @@ parser = opparse.Parser(
 )
 
 
-def _guarantee_call(parent, context, resolve=True):
+def _expect(node, value, *types):
+    """Raise a syntax error located at node if value is not of the right kind."""
+    if not isinstance(value, types):
+        names = {Element: "a variable", Call: "a call", list: "a sequence"}
+        expected = " or ".join(names.get(t, "a value") for t in types)
+        found = names.get(type(value), "a value")
+        raise node.location.syntax_error(f"Expected {expected}, not {found}")
+    return value
+
+
+def _guarantee_call(parent, context, resolve=True, node=None):
     """Always returns a Call instance.
 
     If given an Element, return a Call with that Element as the function
@@ -393,6 +403,8 @@ def _guarantee_call(parent, context, resolve=True):
         name = VSymbol(parent.name) if parent.name and resolve else parent.name
         parent = parent.clone(capture=None, name=name).without_focus()
         parent = Call(element=parent, captures=(), immediate=False)
+    if node is not None:
+        _expect(node, parent, Call)
     assert isinstance(parent, Call)
     return parent
 
@@ -412,7 +424,8 @@ class Evaluator:
         return deco
 
     def __call__(self, ast, context="root"):
-        assert ast is not None
+        if ast is None:
+            raise SyntaxError("Invalid syntax: empty expression")
         if isinstance(ast, opparse.Token):
             key = "SYMBOL"
         else:
@@ -437,8 +450,8 @@ def make_group(node, _1, element, _2, context):
 @evaluate.register_action("X > X")
 def make_nested_imm(node, parent, child, context):
     parent = evaluate(parent, context=context)
-    child = evaluate(child, context=context)
-    parent = _guarantee_call(parent, context=context)
+    child = _expect(node, evaluate(child, context=context), Element, Call)
+    parent = _guarantee_call(parent, context=context, node=node)
     if isinstance(child, Element):
         child = child.with_focus()
         return parent.clone(captures=parent.captures + (child,))
@@ -471,27 +484,26 @@ def make_class(node, element, tag, context):
     element = (
         evaluate(element, context=context) if element else Element(name=None)
     )
-    tag = value_evaluate(tag)
+    _expect(node, element, Element)
+    tag = _expect(node, value_evaluate(tag), VNode)
     return element.clone(category=tag)
 
 
 @evaluate.register_action("_ ! X")
 def make_focus(node, _, element, context):
-    element = evaluate(element, context=context)
-    assert isinstance(element, Element)
+    element = _expect(node, evaluate(element, context=context), Element)
     return element.with_focus()
 
 
 @evaluate.register_action("_ !! X")
 def make_double_focus(node, _, element, context):
-    element = evaluate(element, context=context)
-    assert isinstance(element, Element)
+    element = _expect(node, evaluate(element, context=context), Element)
     return element.clone(tags=frozenset({2}))
 
 
 @evaluate.register_action("_ $ X")
 def make_dollar(node, _, name, context):
-    name = evaluate(name, context=context)
+    name = _expect(node, evaluate(name, context=context), Element)
     return Element(name=None, category=None, capture=name.name, tags=name.tags)
 
 
@@ -501,7 +513,7 @@ def make_call_capture(node, fn, names, _, context):
     fn = evaluate(fn, context=context)
     names = evaluate(names, context="incall") if names else []
     names = names if isinstance(names, list) else [names]
-    fn = _guarantee_call(fn, context=context)
+    fn = _guarantee_call(fn, context=context, node=node)
     caps = tuple(name for name in names if isinstance(name, Element))
     children = tuple(name for name in names if isinstance(name, Call))
     return fn.clone(
@@ -520,8 +532,8 @@ def make_sequence(node, a, b, context):
 
 @evaluate.register_action("X as X")
 def make_as(node, element, name, context):
-    element = evaluate(element, context=context)
-    name = evaluate(name, context=context)
+    element = _expect(node, evaluate(element, context=context), Element, Call)
+    name = _expect(node, evaluate(name, context=context), Element)
     if isinstance(element, Element):
         return element.clone(capture=name.name, tags=element.tags | name.tags)
     else:
@@ -536,8 +548,8 @@ def make_as(node, element, name, context):
 
 @evaluate.register_action("X = X")
 def make_equals(node, element, value, context, matchfn=False):
-    element = evaluate(element, context=context)
-    value = value_evaluate(value)
+    element = _expect(node, evaluate(element, context=context), Element, Call)
+    value = _expect(node, value_evaluate(value), VNode)
     if matchfn:
         value = VCall(MatchFunction, (value,))
     if isinstance(element, Element):
@@ -816,7 +828,10 @@ def _select(selector, context="root"):
             captures=(selector.with_focus(),),
             immediate=False,
         )
-    assert isinstance(selector, Call)
+    if not isinstance(selector, Call):
+        raise SelectorError(
+            "A selector must be a variable or a call, not a sequence"
+        )
     return selector
 
 
